@@ -3,6 +3,7 @@ import Grip.Drv.C03
 import Grip.Model.C17
 import Grip.Model.C04
 import Grip.Spec.C17
+import Grip.Model.C17Read
 
 namespace Grip.Drv.C17
 open Lean Grip Grip.C03 Grip.C03.Spec Grip.Proto Grip.C17 Grip.C17.Spec
@@ -48,6 +49,47 @@ def findingFor (f g : String) : Option String :=
 
 def maxInterleavings : Nat := 40000
 
+/-! ### op `readpath`: one read path of kvgraph against complete writer calls (Grip.C17Read) -/
+
+def callOf? (j : Json) : Option Grip.C17Read.Call := do
+  match (← str? j "c") with
+  | "open" => pure .open
+  | "drain" => pure .drain
+  | "add" => do pure (.add (← (← arr? j "xs").mapM Grip.Drv.C03.elemIn?))
+  | "delE" => do pure (.delEdge (← str? j "id"))
+  | "delV" => do pure (.delVertex (← str? j "id"))
+  | _ => none
+
+def driverOf? : String → Option Grip.C17Read.Driver
+  | "bolt" => some Grip.C17Read.bolt
+  | "badger" => some Grip.C17Read.badger
+  | "level" => some Grip.C17Read.level
+  | "pebble" => some Grip.C17Read.pebble
+  | _ => none
+
+def strs? (j : Json) (k : String) : Option (List String) := do
+  (← arr? j k).mapM fun x => match x with | .str s => some s | _ => none
+
+def outKey : Grip.C17Read.Out → String
+  | .vertex id l d => "v\x01" ++ id ++ "\x01" ++ l ++ "\x01\x01\x01" ++ (ofJV d).compress
+  | .edge id l f t d => "e\x01" ++ id ++ "\x01" ++ l ++ "\x01" ++ f ++ "\x01" ++ t ++ "\x01" ++ (ofJV d).compress
+  | .labelled id => "l\x01" ++ id
+
+def outJson : Grip.C17Read.Out → Json
+  | .vertex id l d => Json.mkObj [("v", Grip.Drv.C03.vJson ⟨id, l, d⟩)]
+  | .edge id l f t d => Json.mkObj [("e", Grip.Drv.C03.eJson ⟨id, l, f, t, d⟩)]
+  | .labelled id => Json.mkObj [("id", Json.str id)]
+
+def readpath (j : Json) : Json :=
+  match (str? j "drv").bind driverOf?, str? j "path", strs? j "reqs", strs? j "labels",
+        (arr? j "init").bind (·.mapM Grip.Drv.C03.elemIn?), (arr? j "calls").bind (·.mapM callOf?) with
+  | some dr, some path, some reqs, some labels, some init, some calls =>
+    let fields := [labelField "g" "v", labelField "g" "e"]
+    let out := Grip.C17Read.runScenario dr fields "g" path reqs labels init calls
+    let sorted := out.mergeSort (fun a b => outKey a ≤ outKey b)
+    Json.mkObj [("out", Json.arr (sorted.map outJson).toArray)]
+  | _, _, _, _, _, _ => Drv.bad "readpath: cannot decode"
+
 def step (st : St) (j : Json) : St × Json :=
   match str? j "op" with
   | some "reset" => ({}, Json.mkObj [("r", "ok")])
@@ -59,6 +101,7 @@ def step (st : St) (j : Json) : St × Json :=
       let s := Grip.C03.run {} hist
       (st, Json.mkObj [("units", Json.num ⟨(Grip.C04.writes s call).length, 0⟩)])
     | _, _ => (st, Drv.bad "units: hist/call")
+  | some "readpath" => (st, readpath j)
   | some "lockset" =>
     (st, Json.mkObj [("unexplained", Json.arr (badPairNames.map Json.str).toArray),
                      ("stale", Json.num ⟨staleEntries.length, 0⟩)])
